@@ -102,6 +102,8 @@ func buildVocab() *Vocab {
 		triple.NewNodeObject(v.Nodes[4]), triple.NewNodeObject(v.Nodes[5]),
 		mustLit(literal.Int64, int64(0)), mustLit(literal.Float64, float64(0)),
 		triple.NewPredicateObject(v.Preds[8]),
+		// floats that differ by less than 1e-6 (appended: indices above stay stable)
+		mustLit(literal.Float64, 2.5000001), mustLit(literal.Float64, 2.50000005),
 	}
 	v.ObjsClean = 18
 	return v
